@@ -2,4 +2,12 @@ SPEC_PART = dict(
     props_file="C12_theta",
     legs=[dict(family="theta", focus="layout", oracles=["layout12_ok"], profiles=["debug"],
                mask=[1, 2, 4, 6, 7, 10, 11, 14], n_quick=120, n_thorough=1200)],
-    trusted=[], assumptions=[], covers="theta: TBD")
+    trusted=["Spec/ThetaLayout.v = my reading of the compact theta formats serVer 1-4 (DESIGN.md Appendix A); no Java/C++ files "
+             "are available offline"],
+    assumptions=[],
+    covers="theta: the bytes of serialize() are exactly the specification's serVer 3 encoding and those of serialize_v4() its "
+           "serVer 4 encoding (blocks of 8 through the unrolled packers + BitPacker tail = one continuous big-endian bit stream); "
+           "the independent decoder dec_spec recovers the abstract state from both; dec_spec inverts enc_spec (serVer 3 all "
+           "forms, serVer 4); the translated constants (flags, versions, family id, preamble ranges, MAX_THETA, BLOCK_WIDTH) equal "
+           "the specification's. Tie: dec_spec run on the crate's real serialize()/serialize_compressed() output must give the "
+           "retained set, theta, emptiness and seed hash that the KMV Spec derives from the history")
